@@ -154,7 +154,9 @@ def run_case(case):
             elif name == "append":
                 out = a.append(b)
             elif name == "join":
-                out = a.join([b, s, pool[k % n], b])
+                items = [b, s, pool[k % n], b]
+                # any iterable will do: list, tuple, one-shot generator, iterator
+                out = a.join([items, tuple(items), (x for x in items), iter(items)][k % 4])
             elif name == "split":
                 for p in a.split(s or " "):
                     add(p)
@@ -245,7 +247,7 @@ def run_case(case):
 
 
 def strategy():
-    seed = gen.desc(alphabet="ab \nＥ́", max_runs=3, max_len=4, min_runs=0)
+    seed = gen.desc(alphabet="ab \nＥ́0134m[", max_runs=3, max_len=4, min_runs=0)
     op = st.fixed_dictionaries(
         {
             "op": st.sampled_from(OPS + ["observe", "observe_all", "observe", "add", "slice", "join", "splice", "cwna"]),
